@@ -21,19 +21,23 @@ from .astcopy import fast_copy
 
 
 class Path:
-    __slots__ = ('conds', 'env', 'exit', 'value', 'events', 'node')
+    __slots__ = ('conds', 'env', 'exit', 'value', 'events', 'node', 'passed')
 
-    def __init__(self, conds=None, env=None, events=None):
+    def __init__(self, conds=None, env=None, events=None, passed=None):
         self.conds = list(conds or [])       # [(test expr (substituted), polarity, original test node)]
         self.env = dict(env or {})
         self.events = list(events or [])     # [(stmt, env snapshot)] for statements with effects, in order
+        self.passed = list(passed or [])     # every statement the path executes (heads of compound statements included)
         self.exit = None                     # 'return' | 'raise' | 'fall' | 'continue' | 'break'
         self.value = None                    # substituted return value / raised expression
         self.node = None                     # the Return / Raise / Continue / Break statement
 
     def fork(self):
-        p = Path(self.conds, self.env, self.events)
+        p = Path(self.conds, self.env, self.events, self.passed)
         return p
+
+    def passes(self, stmt):
+        return any(x is stmt for x in self.passed)
 
     def holds(self, pred):
         """polarity of the first decision whose test satisfies pred(test expr), else None"""
@@ -155,6 +159,14 @@ def _decide(test, p, node, budget):
     if isinstance(test, ast.Constant):
         yield p, bool(test.value)
         return
+    if isinstance(test, ast.Compare) and len(test.ops) > 1:
+        # a <= b <= c  is  a <= b and b <= c
+        parts, left = [], test.left
+        for op, right in zip(test.ops, test.comparators):
+            parts.append(ast.copy_location(ast.Compare(left=left, ops=[op], comparators=[right]), test))
+            left = right
+        yield from _decide(ast.copy_location(ast.BoolOp(op=ast.And(), values=parts), test), p, node, budget)
+        return
     t = subst(test, p.env)
     if isinstance(t, ast.Constant):
         yield p, bool(t.value)          # decided by what the path already bound (a flag set on this very path)
@@ -226,6 +238,7 @@ def paths(body, env=None, limit=400):
             return
         st, rest = stmts[0], stmts[1:]
         tag = f'L{getattr(st, "lineno", 0)}'
+        p.passed.append(st)
         if isinstance(st, ast.If):
             for q_, v in _decide(st.test, p, st, budget):
                 for r in run(st.body if v else st.orelse, q_):
@@ -282,7 +295,7 @@ def paths(body, env=None, limit=400):
         if isinstance(st, (ast.For, ast.AsyncFor, ast.While)):
             p.events.append((st, dict(p.env)))
             names = _stores([st])
-            inner = Path(p.conds + [(st, True, st)], _havoc(p.env, names, tag), p.events)
+            inner = Path(p.conds + [(st, True, st)], _havoc(p.env, names, tag), p.events, p.passed)
             saved = len(done)
             for r in run(st.body, inner):
                 pass                     # falling off the loop body: back to the head
@@ -308,7 +321,7 @@ def paths(body, env=None, limit=400):
             names = _stores(st.body)
             for h in st.handlers:
                 hp = Path(p.conds + [(h.type if h.type is not None else ast.Name(id='BaseException', ctx=ast.Load()), True, h)],
-                          _havoc(p.env, names, tag), p.events)
+                          _havoc(p.env, names, tag), p.events, p.passed)
                 if h.name:
                     hp.env[h.name] = ast.Name(id=f"{h.name}'{tag}", ctx=ast.Load())
                 for r in run(h.body, hp):
